@@ -64,8 +64,11 @@ def job_add_noise(T, Fc, ntype, prior):
         if prior == 'content':
             fr.data = D.copy()
             fr.noise_mean, fr.noise_std = Sym(z3.Real('nm0')), Sym(z3.Real('ns0'))
-        elif prior == 'zeroed':
+        elif prior in ('zeroed', 'zeroed_int'):
             fr.data = D.copy()
+            if prior == 'zeroed_int':
+                # the frame held integer-typed data (counts) before it was emptied: emptied means float zeros again
+                fr.data = fr.data.astype(npx.SymDType('i'))
             fr.noise_mean, fr.noise_std = Sym(z3.Real('nm0')), Sym(z3.Real('ns0'))
             fr.zero_data()
         before = fr.data.copy()
@@ -112,7 +115,7 @@ def job_add_noise(T, Fc, ntype, prior):
                     dis.append(z3.simplify(lift(fr.data[i, j]) - lift(before[i, j]) - nv, som=True) != 0)   # returned == added
                     idx += 1
         dis.append(lift(fr.chi2_df) != k)
-        first = prior in ('zero', 'zeroed')
+        first = prior in ('zero', 'zeroed', 'zeroed_int')
         if first:
             dis.append(lift(fr.noise_mean) != xm.t)
             if ntype == 'chi2':
@@ -463,6 +466,17 @@ def replay_add_noise(p):
     xm, xs, xmin = p.get('x_mean', 3.0), abs(p.get('x_std', 1.0)) or 1.0, p.get('x_min', 2.5)
     if p['prior'] == 'content':
         fr.add_noise(5.0)
+    elif p['prior'] in ('zeroed', 'zeroed_int'):
+        try:
+            for dt_ in ((np.int64, np.float32) if p['prior'] == 'zeroed_int' else (np.float64,)):
+                g = stg.Frame(fchans=8, tchans=4, df=gdf, dt=gdt, fch1=4096.0, seed=17)
+                g.data = (np.arange(32).reshape(4, 8) * 3).astype(dt_)
+                g.zero_data()
+                ng = g.add_noise(xm, xs, noise_type='gaussian')
+                if not np.array_equal(g.data, ng):
+                    return True, f"a frame that held {np.dtype(dt_).name} data, emptied, then given noise: data differs from the returned noise by up to {float(np.max(np.abs(g.data - ng))):.3g} (data dtype {g.data.dtype})"
+        except Exception as e:
+            return True, f"a frame that held other than float64 data, emptied with zero_data(): add_noise raised {type(e).__name__}: {e}"
     before = fr.data.copy()
     k = 4 * round(gdf * gdt)
     msgs = []
@@ -623,7 +637,7 @@ def main():
                       'df*dt >= 1; table lengths 2..3; shapes <= 2x3']
     jobs = []
     for ntype in ('chi2', 'gaussian', 'truncated'):
-        for prior in ('zero', 'content', 'zeroed'):
+        for prior in ('zero', 'content', 'zeroed', 'zeroed_int'):
             jobs.append(('job_add_noise', (2, 2 if ntype != 'chi2' else 3, ntype, prior)))
     jobs.append(('job_errors', ()))
     for ntype in ('chi2', 'gaussian'):
